@@ -869,7 +869,12 @@ func (s *MemoryBackend) ListStores(ctx context.Context, options storage.ListStor
 
 	if len(options.IDs) > 0 {
 		filteredStores := make([]*openfgav1.Store, 0, len(stores))
+		seenIDs := make(map[string]struct{}, len(options.IDs))
 		for _, storeID := range options.IDs {
+			if _, ok := seenIDs[storeID]; ok {
+				continue
+			}
+			seenIDs[storeID] = struct{}{}
 			for _, store := range stores {
 				if store.GetId() == storeID {
 					filteredStores = append(filteredStores, store)
